@@ -1,5 +1,158 @@
-(* C09 — placeholder while the proofs are staged *)
-From Verif Require Import model.RingBuffer.
-Example C09_placeholder : norm_slot 1000000 0 1500000 = 2.
-Proof. vm_compute. reflexivity. Qed.
-Print Assumptions C09_placeholder.
+(* C09 — Ring buffer / moving window behaves as a sliding time-indexed map.
+   Statements only; every proof is `exact <lemma>` from proofs/RingBuffer*.v.
+
+   Concrete side  : model/RingBuffer.v      (OrderedRingBuffer + MovingWindow.at/window/[]; cells,
+                                             gap list, newest; every method as written)
+   Abstract side  : model/RingBufferSpec.v  (newest slot N, map slot -> last valid value;
+                                             update = reject if older than N-cap+1, advance, evict, write)
+   Inv b a        : proofs/RingBufferInv.v  (gap list sorted / disjoint / non-adjacent / inside the
+                                             window; outside the gaps the cells hold exactly the map;
+                                             inside the gaps and outside the window the map is empty)
+
+   Before the `fix:` commits the model of the then-current code refuted three of the statements below
+   (kept as remarks only, the model now follows the repaired code):
+     C09_window_datetimes_refuted_before_fix   cap 5, slots 0..4 written, window(2.1 s, 2.3 s): both ends
+        round to slot 2, start_pos = end_pos, the WHOLE wrapped buffer (5 values) was returned  (F11);
+        cap 6, slots 0,1,2,4,5 written, window(2.4 s, 5 s): fill offsets computed from the raw start,
+        result [NaN, <unwritten cell>, 14] instead of [12, NaN, 14]                              (F12)
+     C09_at_refuted_before_fix                 slots 0,1,4,5 written, at(2) = at(3 s) = mw[2] = the raw,
+        never written cell; at(count_covered) wrapped to the oldest cell                         (F13)
+     C09_counts_refuted_before_fix             period 100 ms, 3 consecutive samples:
+        count_covered = int(0.3 // 0.1) = 2 *)
+From Coq Require Import Lia.
+From Verif Require Import model.RingBuffer model.RingBufferSpec
+     proofs.RingBufferGaps proofs.RingBufferInv proofs.RingBufferObs.
+
+(* ------------------------------------------------------------------ stage 1: update + gap list *)
+Theorem C09_init : forall cs, cs <> [] -> Inv (init_rb cs) spec_init.
+Proof. exact Inv_init. Qed.
+
+(* the buffer rejects (IndexError) exactly the updates older than the window ... *)
+Theorem C09_same_rejects : forall b a k v, Inv b a ->
+  (update b k v = None <-> spec_update (cap b) a k v = None).
+Proof. exact update_rejects. Qed.
+
+(* ... and every accepted update (in order, out of order, duplicate, gap, jump of any size, valid or
+   missing value) re-establishes the invariant against the updated abstract map *)
+Theorem C09_refines : forall b a k v b', Inv b a -> update b k v = Some b' ->
+  exists a', spec_update (cap b) a k v = Some a' /\ Inv b' a'.
+Proof. exact update_preserves. Qed.
+
+(* for EVERY history, starting from any non-empty container with arbitrary content *)
+Theorem C09_refines_history : forall cs h, cs <> [] ->
+  Inv (rb_run (init_rb cs) h) (spec_run (cap (init_rb cs)) spec_init h) /\
+  cap (rb_run (init_rb cs) h) = cap (init_rb cs).
+Proof. intros cs h H. apply run_preserves. apply Inv_init. exact H. Qed.
+
+(* the reported gaps are exactly the window slots without a valid value *)
+Theorem C09_gaps : forall b a n j, Inv b a -> newest b = Some n -> n - cap b + 1 <= j <= n ->
+  gaps_ok (cap b) n (gaps b) /\ is_some (s_map a j) = negb (is_missing (gaps b) j).
+Proof.
+  intros b a n j HI Hn Hj. pose proof (inv_facts _ _ _ HI Hn) as F.
+  split; [exact (f_gaps _ _ _ F)|exact (facts_some _ _ _ _ F Hj)].
+Qed.
+
+(* ------------------------------------------------------------------ stage 2: counts and bounds *)
+Theorem C09_counts : forall b a, Inv b a ->
+  count_valid b = spec_count (cap b) a /\ oldest_ts b = spec_oldest (cap b) a /\
+  newest_ts b = spec_newest (cap b) a /\ count_covered b = spec_covered (cap b) a.
+Proof. exact observers_inv. Qed.
+
+(* ------------------------------------------------------------------ stage 3: queries *)
+(* window(start, end) with arbitrary datetimes (microseconds): one value per slot of
+   [max(round start, oldest valid), min(round end, newest + 1)), the stored valid value or the fill *)
+Theorem C09_window_datetimes : forall p al b a s e f, Inv b a ->
+  window_ts p al b s e (Some f) = RList (spec_window (cap b) a (norm_slot p al s) (norm_slot p al e) f).
+Proof. exact window_ts_inv. Qed.
+
+(* window(start, end) with indices (negative / None / out of range as for Python slices) *)
+Theorem C09_window_indices : forall b a s e f, Inv b a ->
+  window_idx b s e (Some f) = RList (spec_window_idx (cap b) a s e f).
+Proof. exact window_idx_inv. Qed.
+
+(* MovingWindow.at(i) / mw[i] and MovingWindow.at(datetime) / mw[datetime] *)
+Theorem C09_at_index : forall b a i, Inv b a -> at_idx b i = spec_at_idx (cap b) a i.
+Proof. exact at_idx_inv. Qed.
+
+Theorem C09_at_datetime : forall p al b a t, 0 < p -> Inv b a ->
+  at_ts p al b t = spec_at_ts p al (cap b) a t.
+Proof. exact at_ts_inv. Qed.
+
+(* never data from an evicted or unwritten slot: the answered slots lie inside the query and inside
+   [oldest valid, newest] (itself inside the window), ... *)
+Theorem C09_only_window_slots : forall b a s e j, Inv b a -> In j (spec_cover (cap b) a s e) ->
+  s <= j < e /\
+  exists o n, spec_oldest (cap b) a = Some o /\ s_new a = Some n /\ o <= j <= n /\ n - cap b + 1 <= o.
+Proof. exact spec_cover_range. Qed.
+
+(* ... every valid value of the map was written to that very slot by an update of the history
+   (so the initial content of the container can never surface), ... *)
+Theorem C09_values_from_history : forall c h j v,
+  s_map (spec_run c spec_init h) j = Some v -> In (j, Some v) h.
+Proof. intros c h j v H. destruct (spec_run_values c h spec_init j v H) as [X|X]; [discriminate|exact X]. Qed.
+
+(* ... and never more slots than the query spans *)
+Theorem C09_no_more_than_spanned : forall c a s e f,
+  Z.of_nat (length (spec_window c a s e f)) <= Z.max 0 (e - s).
+Proof. exact spec_window_length. Qed.
+
+(* end to end, in microseconds: any container content, any history of samples, any datetime query *)
+Theorem C09_sliding_map : forall p al cs (h : list (Z * cell)) s e f, cs <> [] ->
+  let hist := map (fun x => (norm_slot p al (fst x), snd x)) h in
+  window_ts p al (rb_run (init_rb cs) hist) s e (Some f)
+  = RList (spec_window (cap (init_rb cs)) (spec_run (cap (init_rb cs)) spec_init hist)
+                       (norm_slot p al s) (norm_slot p al e) f).
+Proof.
+  intros p al cs h s e f Hne hist.
+  destruct (C09_refines_history cs hist Hne) as [HI Hcap].
+  rewrite (window_ts_inv p al _ _ s e f HI). rewrite Hcap. reflexivity.
+Qed.
+
+(* ------------------------------------------------------------------ normalize_timestamp *)
+Theorem C09_normalize_grid_monotone : forall p al, 0 < p ->
+  (forall k, norm_slot p al (ts_of p al k) = k) /\
+  (forall t1 t2, t1 <= t2 -> norm_slot p al t1 <= norm_slot p al t2).
+Proof. intros p al Hp. split; [intros; apply norm_slot_grid; exact Hp|intros; apply norm_slot_mono; assumption]. Qed.
+
+(* nearest slot, ties to the even slot (periods of an even number of microseconds) *)
+Theorem C09_normalize_nearest : forall p al t, 0 < p -> p mod 2 = 0 ->
+  let k := norm_slot p al t in
+  - p <= 2 * (t - ts_of p al k) <= p /\
+  (2 * (t - ts_of p al k) = p \/ 2 * (t - ts_of p al k) = - p -> k mod 2 = 0).
+Proof. exact norm_slot_nearest. Qed.
+
+(* ------------------------------------------------------------------ non-vacuity *)
+(* capacity 4, period 1 s; samples at 0 s (10), 1 s (11), 1.5 s (None: rounds to slot 2), 5 s (15:
+   a jump), 4.4 s (14, out of order).  Window slots 2..5: slot 2 evicted/missing, 3 never written. *)
+Example C09_nonvacuous :
+  let p := 1000000 in
+  let cs := [Some (-1000); Some (-1001); Some (-1002); Some (-1003)] in
+  let h := [(0, Some 10); (1000000, Some 11); (1500000, None); (5000000, Some 15); (4400000, Some 14)] in
+  let hist := map (fun x => (norm_slot p 0 (fst x), snd x)) h in
+  let b := rb_run (init_rb cs) hist in
+  cs <> [] /\
+  gaps b = [(2, 4)] /\ count_valid b = 2 /\ oldest_ts b = Some 4 /\ newest_ts b = Some 5 /\
+  window_ts p 0 b 2100000 2300000 (Some None) = RList [] /\
+  window_ts p 0 b 3600000 9000000 (Some (Some (-5))) = RList [Some 14; Some 15] /\
+  window_idx b (Some (-9)) None (Some None) = RList [Some 14; Some 15] /\
+  at_idx b 2 = RErr /\ at_idx b (-1) = RVal (Some 15) /\
+  update b 1 (Some 99) = None /\
+  spec_update 4 (spec_run 4 spec_init hist) 1 (Some 99) = None.
+Proof. cbv zeta. split; [discriminate|]. vm_compute. repeat split; reflexivity. Qed.
+
+Print Assumptions C09_init.
+Print Assumptions C09_same_rejects.
+Print Assumptions C09_refines.
+Print Assumptions C09_refines_history.
+Print Assumptions C09_gaps.
+Print Assumptions C09_counts.
+Print Assumptions C09_window_datetimes.
+Print Assumptions C09_window_indices.
+Print Assumptions C09_at_index.
+Print Assumptions C09_at_datetime.
+Print Assumptions C09_only_window_slots.
+Print Assumptions C09_values_from_history.
+Print Assumptions C09_no_more_than_spanned.
+Print Assumptions C09_sliding_map.
+Print Assumptions C09_normalize_grid_monotone.
+Print Assumptions C09_normalize_nearest.
